@@ -25,13 +25,50 @@ import (
 type obj struct {
 	store func(val interface{}) error
 	get   func() (interface{}, error)
+	// key share stores: LockKeyshare / UnlockKeyshare (nil for the topology store)
+	lock, unlock func()
 }
 
+// lockCalls: every store / read of a key share store is made the way the tss processes make it - between
+// LockKeyshare() and UnlockKeyshare() of the same object (keygen and resharing hold the lock around
+// StoreKeyshare, signing around GetKeyshare)
+var lockCalls bool
+
+// newObj: one real store object whose every call runs under the call deadline (guard.go)
 func newObj(store, path string) obj {
+	raw := rawObj(store, path)
+	held := ""
+	if lockCalls && raw.lock != nil {
+		held = " with the key share lock held by the caller"
+	}
+	return obj{
+		store: func(val interface{}) error {
+			return guardErr("a "+store+" store call"+held, func() error {
+				if lockCalls && raw.lock != nil {
+					raw.lock()
+					defer raw.unlock()
+				}
+				return raw.store(val)
+			})
+		},
+		get: func() (interface{}, error) {
+			return guardGet("a "+store+" read call"+held, func() (interface{}, error) {
+				if lockCalls && raw.lock != nil {
+					raw.lock()
+					defer raw.unlock()
+				}
+				return raw.get()
+			})
+		},
+	}
+}
+
+func rawObj(store, path string) obj {
 	switch store {
 	case "ecdsa":
 		s := keyshare.NewECDSAKeyshareStore(path)
 		return obj{
+			lock: s.LockKeyshare, unlock: s.UnlockKeyshare,
 			store: func(val interface{}) error { return s.StoreKeyshare(val.(keyshare.ECDSAKeyshare)) },
 			get: func() (interface{}, error) {
 				k, err := s.GetKeyshare()
@@ -47,6 +84,7 @@ func newObj(store, path string) obj {
 	case "frost":
 		s := keyshare.NewFrostKeyshareStore(path)
 		return obj{
+			lock: s.LockKeyshare, unlock: s.UnlockKeyshare,
 			store: func(val interface{}) error { return s.StoreKeyshare(val.(keyshare.FrostKeyshare)) },
 			get: func() (interface{}, error) {
 				k, err := s.GetKeyshare()
@@ -101,6 +139,7 @@ type oArgs struct {
 	Scratch string  `json:"scratch"`
 	Old     Value   `json:"old"`
 	Steps   []oStep `json:"steps"`
+	Locked  bool    `json:"locked,omitempty"`
 }
 
 func stepMarker(path string, i int) string { return fmt.Sprintf("%s.marker%d", path, i) }
@@ -128,6 +167,7 @@ func ohistChild() {
 	}
 	signal.Ignore(syscall.SIGXFSZ)
 	_ = syscall.Setrlimit(syscall.RLIMIT_CORE, &syscall.Rlimit{Cur: 0, Max: 0})
+	lockCalls = a.Locked
 	vals := []interface{}{build(a.Store, a.Old)}
 	for _, st := range a.Steps {
 		vals = append(vals, build(a.Store, st.Value))
@@ -182,7 +222,7 @@ func ohistChild() {
 // runOneProc executes the resolved steps of a history in one child process under strace and fills in
 // what every step did.  sos: per step the plan (K, Data, Fate) resolved by runHistory.
 func runOneProc(c Case, sdir, scratch, path string, vals []interface{}, vids []int, sos []StepObs, o Obs) Obs {
-	args := oArgs{Store: c.Store, Path: path, Scratch: scratch, Old: *c.Old}
+	args := oArgs{Store: c.Store, Path: path, Scratch: scratch, Old: *c.Old, Locked: c.Locked}
 	for i, st := range c.Steps {
 		switch st.Mode {
 		case "ok", "efbig":
